@@ -98,6 +98,8 @@ func NewRun(prop, tier, level, part string, budget time.Duration) *Run {
 		budget = time.Duration(b) * time.Second
 	}
 	r.deadline = r.start.Add(budget)
+	GuardProperty = prop
+	StartGuard()
 	r.loadKnown()
 	return r
 }
